@@ -7,6 +7,7 @@ From Coq Require Import String.
 From Coq Require Import List Bool Arith NArith ZArith Lia.
 Import ListNotations.
 Require Import Str Rx RxFacts RxSub Md5 Memo Mask IpModel IpText JunModel AsModel G_rx G_text_consts G_juniper G_ip_consts.
+Require PyLib G_fn_sir.
 Local Open Scope N_scope.
 
 (* outcome of anything that can raise in Python *)
@@ -38,8 +39,12 @@ Definition extract_enclosing (in_val head tail : str) : str * str * str :=
   extract_enclosing_aux (S (length in_val)) in_val head tail.
 
 (* ------------------------------------------------------------------ _check_sensitive_item_format *)
+(* the function is generated from the source (gen/G_fn_sir.v); here only the marshalling of its argument and result *)
 Definition check_format (val : str) : N :=
-  fold_left (fun fmt '(rx, code) => match match_start val rx with Some _ => code | None => fmt end) FORMAT_CHECKS FORMAT_DEFAULT.
+  match G_fn_sir.gen__check_sensitive_item_format (fun _ _ => PyLib.Exc PyLib.Unsupported) 1%nat (PyLib.VStr (map Z.of_N val)) with
+  | PyLib.Normal (PyLib.VInt z) => Z.to_N z
+  | _ => 0
+  end.
 Definition fmt_code (i : N) : N := match JunModel.assoc FORMAT_ENUM i with Some v => v | None => 0 end.
 Definition F_TYPE7 := fmt_code 0. Definition F_NUMERIC := fmt_code 1. Definition F_HEX := fmt_code 2.
 Definition F_MD5 := fmt_code 3. Definition F_TEXT := fmt_code 4. Definition F_SHA512 := fmt_code 5. Definition F_JUNIPER := fmt_code 6.
